@@ -64,6 +64,19 @@ Definition al := approx_list.
                     if L >= n + 1:
                         cases.append(self.mk(rng, "ext_lin", a, n, direction=d))
                         cases.append(self.mk(rng, "ext_lin", a, n, direction=d, explicit=True))
+        # arrays that are *almost* evenly spaced (interior elements off the regular grid by 2^-20..2^-18 of the step) and arrays on a
+        # tiny scale (clearly uneven multiples of 2^-30): an "evenly spaced" shortcut that tests the spacing with a tolerance
+        # (np.allclose: rtol 1e-5, atol 1e-8) takes both for even. Every run, every structural helper that looks at differences.
+        for step in (1.0, 300.0, 0.5):
+            for L in (3, 4, 6):
+                a = [5.0 + i * step + (step * rng.choice([-4, -2, -1, 1, 2, 4]) * 2.0 ** -20 if 0 < i < L - 1 else 0.0) for i in range(L)]
+                for op in ("ov_lin", "iov"):
+                    cases.append(self.mk(rng, op, a, rng.choice([2, 3, 4])))
+                cases.append(self.mk(rng, "ext_lin", a, rng.randint(1, L - 1), direction=rng.choice(list(DIRS))))
+        for a in ([k * 2.0 ** -30 for k in (0, 1, 3, 4, 8)], [k * 2.0 ** -30 for k in (1, 5, 2, 7)]):
+            for op in ("ov_lin", "iov", "ov_pc"):
+                cases.append(self.mk(rng, op, a, rng.choice([2, 3, 4])))
+            cases.append(self.mk(rng, "ext_lin", a, 2, direction=rng.choice(list(DIRS))))
         nrand = 250 if tier == "quick" else 2500
         for _ in range(nrand):
             op = rng.choice(self.OPS)
